@@ -35,7 +35,8 @@ RULE = (
     "(docs/cli.rst: mangled), pkg.mod, a hyphenated pkg.mod, or a package with __main__.hy. Each mode runs as a subprocess of the tree's hy entry point in "
     "a fresh scratch directory. Oracle: (absolute, per mode) every reported sys.argv[1:] == ARGS and sys.argv[0] == what CPython documents for the "
     "equivalent python invocation ('-c'; the script path as given; '-'; the full path of the module file); (relative, every mode against a reference mode: the first of the largest group of agreeing modes, normally -c) stdout "
-    "without the report lines, exit status, and the last line of stderr are identical. A mode that never reports argv is a failure of that mode. "
+    "without the report lines, exit status, and the last line of stderr are identical. A mode that never reports argv is a failure of that mode, unless no "
+    "mode ran the program and hy_compile (library API, separate process) rejects the text too: then it is not a program and only agreement is required. "
     "Non-trivial = at least one ARG and the -c run printed a report plus at least one other line; distinct by the whole case"
 )
 ASSUMPTIONS = [
@@ -303,6 +304,26 @@ def cwd_joined(cwd, given, got):
     )
 
 
+_ACCEPTS = {}
+_WITNESS = (
+    "import sys, types, hy\n"
+    "from hy.compiler import hy_compile\n"
+    "src = sys.stdin.read()\n"
+    "tree = hy_compile(hy.read_many(src, filename='<c41>'), types.ModuleType('__main__'), source=src, filename='<c41>')\n"
+    "compile(tree, '<c41>', 'exec')\n"
+    "print('\\nC41-ACCEPTED')\n"
+)
+
+
+def compiler_accepts(src):
+    """Independent witness, used only when NO mode ran the program: does the compiler (library API, no command line involved) accept the text?
+    If it does not, the text is not a program at all (a compiler matter, C10), and only the agreement of the modes is required."""
+    if src not in _ACCEPTS:
+        ob = run_proc([sys.executable, "-c", _WITNESS], None, src)
+        _ACCEPTS[src] = ob["stdout"].endswith("C41-ACCEPTED\n")
+    return _ACCEPTS[src]
+
+
 def tail(s, n=700):
     return s if len(s) <= n else "..." + s[-n:]
 
@@ -351,6 +372,10 @@ def judge(case, obs):
                 dict(cmd=ob["cmd"], expected=ob["expect_argv0"], got=got0, layout=kind, cwd=ob.get("cwd")),
                 [m],
             ))
+    if case.get("runs", True) and usable and not any(ob["_reports"] for ob in usable.values()) and not compiler_accepts(case["src"]):
+        fails = [f for f in fails if not f[0].endswith(":program-never-reported-argv")]
+        for ob in usable.values():
+            ob["_rejected"] = True
     # relative part: every mode against a reference mode.  The reference is the first mode (in MODES order) of the largest group of modes that
     # agree with each other, so that one broken mode is named as the odd one out; a replay case names its reference explicitly.
     sig = {m: (usable[m]["_rest"], usable[m]["status"], last_line(usable[m]["stderr"])) for m in MODES if m in usable}
@@ -738,6 +763,8 @@ def shard(ctx):
                 nt = bool(case["args"]) and bool(ref.get("_reports")) and any(l and l != "<ARGV>" for l in ref.get("_rest", "").split("\n"))
                 cls = classes(case, meta)
                 cls.append("status(-c):%s" % (ref["status"] if ref["status"] in (0, 1, 130) else "other"))
+                if ref.get("_rejected"):
+                    cls.append("skipped:compiler-rejects-the-program-outside-the-command-line-too(only-agreement-checked)")
                 for m in MODES:
                     if "_reports" in obs[m] and obs[m]["_reports"]:
                         cls.append("mode-ran:" + m)
